@@ -36,7 +36,16 @@ type C14Planted struct {
 	Kind string `json:"kind"` // oob strlimit byteslimit illTyped notCallable
 }
 
+// C14Ladder: Count consecutive lines starting at First, each performing exactly
+// one tracked allocation and nothing else.
+type C14Ladder struct {
+	File  string `json:"file"`
+	First int    `json:"first"`
+	Count int    `json:"count"`
+}
+
 type C14Meta struct {
+	Ladders  []C14Ladder               `json:"ladders,omitempty"`
 	Root     string                    `json:"root"` // name of the function that is the program body ("<root>")
 	Markers  map[int]C14Marker         `json:"markers"`
 	Funcs    map[string]C14Func        `json:"funcs"`
@@ -75,6 +84,16 @@ func (b *c14b) marker(file, fn string, line int, dead bool) int {
 }
 
 func (b *c14b) v() string { b.nvar++; return "t" + itoa(b.nvar) }
+
+// ladder emits n single-allocation statements on consecutive lines.
+func (b *c14b) ladder(file, fn string, indent int) {
+	n := b.r.Range(4, 9)
+	first := len(*b.files[file]) + 1
+	for i := 0; i < n; i++ {
+		b.emit(file, fn, b.v()+" := "+[]string{"[]", "{}", "[7]", "{a: 7}", "error(7)", "[]", "{}"}[b.r.Intn(7)], indent)
+	}
+	b.meta.Ladders = append(b.meta.Ladders, C14Ladder{File: file, First: first, Count: n})
+}
 
 // nextLineFix moves marker id to the line about to be emitted (used when a
 // marker statement needs a preparatory line first).
@@ -417,6 +436,19 @@ func genC14(r *plan.Rng) *plan.Plan {
 		b.emit(rootFile, "<root>", "import(\"mk\").mark("+itoa(id)+", 0)", 0)
 	}
 	b.emit(rootFile, "<root>", "mk := import(\"mk\")", 0)
+	if r.Chance(1, 2) {
+		b.ladder(rootFile, "<root>", 0)
+	}
+	if r.Chance(1, 2) {
+		// a ladder as the first statements of a function body
+		b.emit(rootFile, "<root>", "ladf := func() {", 0)
+		b.ladder(rootFile, "ladf", 1)
+		b.emit(rootFile, "ladf", "return 0", 1)
+		b.emit(rootFile, "<root>", "}", 0)
+		cl := b.emit(rootFile, "<root>", "ladf()", 0)
+		b.emit(rootFile, "<root>", b.v()+" := 0", 0)
+		meta.Funcs["ladf"] = C14Func{File: rootFile, Parent: "<root>", CallFile: rootFile, CallLine: cl}
+	}
 	// optional source module with functions called from the root file
 	useMod := r.Chance(1, 2)
 	useSub := false
